@@ -433,8 +433,13 @@ def _truncation(chk, repo, folder):
         chk.check(not wrong, "R11", f"{CL}:SdoClient.upload | truncation guard", f.loc(c),
                   f"guard `{src(conj)}` must hold exactly for the types with a fixed-size codec: {', '.join(wrong[:5])}" + (f" (+{len(wrong) - 5} more)" if len(wrong) > 5 else ""),
                   "evaluated for type codes 0x00..0x23, 0x40, 0xFF")
-        chk.check(ff.is_form(c.value, "data[0:var_size]", "data[:var_size]") and ff.one_def("var_size") is not None and src(ff.one_def("var_size")) == "len(var) // 8", "R11",
-                  f"{CL}:SdoClient.upload | leading bytes", f.loc(c), f"truncation is {src(c.value)} with var_size = {src(ff.one_def('var_size')) if ff.one_def('var_size') is not None else '?'}")
+        sl = c.value.slice
+        lo_ok = sl.lower is None or folder.try_fold(sl.lower, ff.scope, None) == 0
+        up = sl.upper
+        if isinstance(up, ast.Name) and ff.one_def(up.id) is not None:
+            up = ff.one_def(up.id)
+        chk.check(lo_ok and sl.step is None and up is not None and src(up) == "len(var) // 8", "R11",
+                  f"{CL}:SdoClient.upload | leading bytes", f.loc(c), f"truncation is {src(c.value)} (upper bound {src(up) if up is not None else '?'}); expected the first len(var) // 8 bytes")
 
     # ------------------------------------------------------------------ R15 ODVariable.__len__ per data type (upload truncation takes len(var) // 8 bytes; shared with C04.R5)
     from . import c04 as _c04len
